@@ -269,6 +269,13 @@ def build_corpus(seed: int, n_templates: int, max_bytes: int) -> List[Dict[str, 
         vs = failing_variants(rng, name, text)
         rng.shuffle(vs)
         docs.extend(vs[:3] if name.startswith("repo:") else vs[:2])
+    # (added after the failing variants were derived: a garbage token inside the nested expression sends
+    # pyparsing into exponential backtracking - minutes for 40 levels - which is C08's business, not C11's)
+    # deep nesting in a column type argument: 150 levels exceed the interpreter's recursion limit inside
+    # pyparsing (RecursionError half-way through the parse), 40 levels parse fine
+    for label, n in (("nested-40", 40), ("recursion-150", 150)):
+        docs.append((label, "Table before_it {\n  id int\n}\n\nTable deep {\n  id decimal(" + "f(" * n + "1" + ")" * n
+                     + ")\n}\n"))
     out = []
     seen = set()
     for name, text in docs:
